@@ -39,9 +39,10 @@ RULE = ("cases = (format, gate word of length<=L over the format's own gate set 
 ASSUMPTIONS = [
     "parameter values outside the finite alphabet, words longer than the depth bound and more than 3 active qubits "
     "(plus 2 idle below / 2 idle above) are not explored",
-    "depth 3 is exhaustive over the full alphabet for ProjectQ; for IonQ JSON depth 3 uses every gate name x every "
-    "placement x 2 parameter values (the full 11-value alphabet is exhaustive to depth 2): 807^3 words do not fit the "
-    "budget; both translators handle gates one at a time (the only cross-gate state is the width)",
+    "depth 3 is exhaustive over the full alphabet for ProjectQ (free width; idle-qubit variants at depth 3 over the "
+    "2-parameter alphabet); for IonQ JSON depth 3 uses every gate name x every placement x 1-2 controls x one generic "
+    "parameter value (the full 11-value alphabet is exhaustive to depth 2 in all six width variants): 807^3 words do "
+    "not fit the budget; both translators handle gates one at a time (the only cross-gate state is the width)",
     "variational flags cannot be expressed in IonQ JSON / ProjectQ text: the imported circuit is compared with the "
     "original with flags cleared",
     "CNOT and CX are the same gate name for every comparison (Gate.__eq__ says so, the IonQ reader returns CX)",
@@ -154,7 +155,9 @@ def alphabet(fmt, al, seed):
     P = params(seed)
     if al == "full":
         return symbols(SPEC[fmt], P, P[1])
-    return symbols(SPEC[fmt], [P[1], P[9]], P[1])
+    if al == "reduced":
+        return symbols(SPEC[fmt], [P[1], P[9]], P[1])
+    return symbols(SPEC[fmt], [P[1]], P[1])          # "small": every name x every placement, one generic parameter
 
 
 def shift(d, off):
@@ -338,18 +341,31 @@ def routes(fmt, x):
     return [("text" if isinstance(x, str) else "object", x, x if isinstance(x, str) else None)]
 
 
+def _viol(acc, n, key, mkcase, mkdetail, group):
+    """Record a violation; a key that already has a witness with fewer gates only gets counted (cost control:
+    the runner keeps the smallest witness per key anyway)."""
+    seen = acc.__dict__.setdefault("_minlen", {})
+    old = seen.get(key)
+    if old is not None and old < n:
+        acc.count("violating_cases")
+        return
+    seen[key] = n if old is None else min(old, n)
+    acc.violation(key, mkcase(), mkdetail(), group=group)
+
+
 def check_roundtrip(fmt, gates, plain, exp, exp_w, nq, acc, mkcase, unsup=None, nt_key=None):
     """gates: real Gate objects; plain: same with flags cleared (or None when no gate is variational);
     exp/exp_w: reference canonical gate list and width; unsup: None for a word inside the supported set."""
     from tangelo.linq import Circuit
     c = Circuit(gates, n_qubits=nq)
     acc.ev()
+    n = len(exp)
     try:
         x = _export(fmt, c)
     except Exception as e:
         if unsup is None:
-            acc.violation(f"{fmt}.export/raises-on-supported-gate/{exc_sig(e)}", mkcase(), {"err": repr(e)[:300]},
-                          group=f"{fmt}.export/raises-on-supported-gate")
+            _viol(acc, n, f"{fmt}.export/raises-on-supported-gate/{exc_sig(e)}", mkcase, lambda: {"err": repr(e)[:300]},
+                  f"{fmt}.export/raises-on-supported-gate")
         else:
             acc.count(f"{fmt}_unsupported_refused_by_exporter")
             acc.out(("refused", fmt, unsup, type(e).__name__))
@@ -357,11 +373,12 @@ def check_roundtrip(fmt, gates, plain, exp, exp_w, nq, acc, mkcase, unsup=None, 
                 acc.nt(nt_key)
         return
     cc = c if plain is None else Circuit(plain, n_qubits=nq)
+    exact = SPEC[fmt]["exact"]
     for label, art, txt in routes(fmt, x):
         if isinstance(art, Exception):
             if unsup is None:
-                acc.violation(f"{fmt}.export/not-serialisable/{exc_sig(art)}", mkcase(), {"err": repr(art)[:300]},
-                              group=f"{fmt}.export/not-serialisable")
+                _viol(acc, n, f"{fmt}.export/not-serialisable/{exc_sig(art)}", mkcase, lambda: {"err": repr(art)[:300]},
+                      f"{fmt}.export/not-serialisable")
             else:
                 acc.count(f"{fmt}_unsupported_refused_at_serialisation")
             continue
@@ -369,45 +386,42 @@ def check_roundtrip(fmt, gates, plain, exp, exp_w, nq, acc, mkcase, unsup=None, 
             c2 = _import(fmt, art)
         except Exception as e:
             if unsup is None:
-                acc.violation(f"{fmt}.import/raises-on-own-export/{exc_sig(e)}", mkcase(),
-                              {"exported": art, "err": repr(e)[:300], "route": label},
-                              group=f"{fmt}.import/raises-on-own-export")
+                _viol(acc, n, f"{fmt}.import/raises-on-own-export/{exc_sig(e)}", mkcase,
+                      lambda: {"exported": art, "err": repr(e)[:300], "route": label},
+                      f"{fmt}.import/raises-on-own-export")
             else:
-                acc.violation(f"{fmt}.export/unsupported-not-refused/{unsup}:import-raises", mkcase(),
-                              {"exported": art, "import_err": repr(e)[:300], "route": label},
-                              group=f"{fmt}.export/unsupported-not-refused({feature(unsup)})")
+                _viol(acc, n, f"{fmt}.export/unsupported-not-refused/{unsup}:import-raises", mkcase,
+                      lambda: {"exported": art, "import_err": repr(e)[:300], "route": label},
+                      f"{fmt}.export/unsupported-not-refused({feature(unsup)})")
             continue
-        exact = SPEC[fmt]["exact"]
         got = [canon_obj(g, exact) for g in c2._gates]
         got_w = c2.width
         d = diff(exp, exp_w, got, got_w)
         try:
             eq = bool(c2 == cc) and not bool(c2 != cc)
         except Exception as e:
-            acc.violation(f"{fmt}.roundtrip/circuit-eq-raises/{exc_sig(e)}", mkcase(), {"err": repr(e)[:300]},
-                          group=f"{fmt}.roundtrip/circuit-eq-raises")
+            _viol(acc, n, f"{fmt}.roundtrip/circuit-eq-raises/{exc_sig(e)}", mkcase, lambda: {"err": repr(e)[:300]},
+                  f"{fmt}.roundtrip/circuit-eq-raises")
             eq = None
         if nt_key is not None:
             if exp:
                 acc.nt(nt_key + (label,))
             acc.out(txt if txt is not None else repr(got))
+
+        def detail():
+            return {"exported": art, "expected": [exp, exp_w], "imported": [got, got_w], "circuit_eq": eq, "route": label}
         if unsup is not None:
             if d is None and eq:
                 acc.count(f"{fmt}_unsupported_not_refused_but_unchanged")
             else:
-                acc.violation(f"{fmt}.export/unsupported-not-refused/{unsup}:{d[0] + '(' + d[1] + ')' if d else 'eq-false'}",
-                              mkcase(), {"exported": art, "expected": [exp, exp_w], "imported": [got, got_w],
-                                         "circuit_eq": eq, "route": label},
-                              group=f"{fmt}.export/unsupported-not-refused({feature(unsup)})")
+                _viol(acc, n, f"{fmt}.export/unsupported-not-refused/{unsup}:{d[0] + '(' + d[1] + ')' if d else 'eq-false'}",
+                      mkcase, detail, f"{fmt}.export/unsupported-not-refused({feature(unsup)})")
             continue
         if d is not None:
-            acc.violation(f"{fmt}.roundtrip/{d[0]}/{d[1]}", mkcase(),
-                          {"exported": art, "expected": [exp, exp_w], "imported": [got, got_w], "circuit_eq": eq,
-                           "route": label}, group=f"{fmt}.roundtrip/{d[0]}({d[1].split(',')[0]})")
+            _viol(acc, n, f"{fmt}.roundtrip/{d[0]}/{d[1]}", mkcase, detail, f"{fmt}.roundtrip/{d[0]}({d[1].split(',')[0]})")
         elif eq is False:
-            acc.violation(f"{fmt}.roundtrip/circuit-eq-false-but-structurally-equal/{'+'.join(sorted({e[0] for e in exp}))}",
-                          mkcase(), {"exported": art, "imported": [got, got_w], "route": label},
-                          group=f"{fmt}.roundtrip/circuit-eq-false-but-structurally-equal")
+            _viol(acc, n, f"{fmt}.roundtrip/circuit-eq-false-but-structurally-equal/{'+'.join(sorted({e[0] for e in exp}))}",
+                  mkcase, detail, f"{fmt}.roundtrip/circuit-eq-false-but-structurally-equal")
 
 
 def run_circ_case(case, acc, nt_key=None):
@@ -689,7 +703,8 @@ def plan(tier):
         if f == "projectq":
             P.append((f, "full", 2, allv))
             if tier == "thorough":
-                P.append((f, "full", 3, [0, 5]))
+                P.append((f, "full", 3, [0]))
+                P.append((f, "reduced", 3, [2, 5]))
         elif f == "ionq":
             P.append((f, "full", 1, allv))
             P.append((f, "reduced", 2, allv))
@@ -697,7 +712,7 @@ def plan(tier):
                 P.append((f, "full", 2, [0, 2, 5]))
             else:
                 P.append((f, "full", 2, allv))
-                P.append((f, "reduced", 3, [0]))
+                P.append((f, "small", 3, [0]))
         else:   # optional object formats (package present): smaller budget, never exercised in this sandbox
             P.append((f, "reduced", 2 if tier == "quick" else 3, [0, 2, 5]))
             P.append((f, "full", 1 if tier == "quick" else 2, [0]))
@@ -906,12 +921,12 @@ def replay_case(case):
 def bounds(tier, seed):
     P = params(seed)
     return {
-        "tier": tier, "parameter_alphabet": P, "reduced_parameter_alphabet": [P[1], P[9]],
+        "tier": tier, "parameter_alphabet": P, "reduced_parameter_alphabet": [P[1], P[9]], "small_parameter_alphabet": [P[1]],
         "width_variants(offset=idle bottom qubits, idle top qubits)": VARIANTS,
         "formats_run": active_formats(),
         "formats_skipped": {f: f"package {SPEC[f]['needs']} does not import" for f in SPEC if f not in active_formats()},
         "blocks(format, alphabet, max depth, width variants)": [list(b) for b in plan(tier)],
-        "alphabet_sizes": {f"{f}/{al}": len(alphabet(f, al, seed)) for f in active_formats() for al in ("full", "reduced")},
+        "alphabet_sizes": {f"{f}/{al}": len(alphabet(f, al, seed)) for f in active_formats() for al in ("full", "reduced", "small")},
         "gate_sets": {f: sorted(spec_names(SPEC[f])) for f in active_formats()},
         "max_controls": {f: SPEC[f]["max_controls"] for f in active_formats()},
         "refusal_cases": {f: len(refusal_cases(f, tier, seed)) for f in active_formats()},
